@@ -16,6 +16,33 @@ from pblint.desugar import inventory_of_function  # noqa: E402
 from pblint.hazards import effects_of  # noqa: E402
 
 
+def anchored_functions(repo, root):
+    """{property id: [qualified names]}: the functions that overlap the line ranges the property's anchors name
+    (properties.jsonl, 'mechanism' -> 'where'), resolved once on the confirmed tree so that later edits cannot shift them"""
+    import re
+    here = os.path.dirname(os.path.abspath(__file__))
+    out = {}
+    for line in open(os.path.join(here, 'properties.jsonl')):
+        p = json.loads(line)
+        names = []
+        for mech in p['anchors']['mechanism']:
+            for part in re.split(r';\s*', mech['where']):
+                mm = re.match(r'^(\S+?):(.*)$', part.strip())
+                if not mm:
+                    continue
+                rel = mm.group(1)
+                ranges = []
+                for r_ in mm.group(2).split(','):
+                    m2 = re.match(r'^\s*(\d+)(?:-(\d+))?', r_)
+                    if m2:
+                        ranges.append((int(m2.group(1)), int(m2.group(2) or m2.group(1))))
+                for q, fi in repo.functions.items():
+                    if fi.module.relpath == rel and any(not (fi.node.end_lineno < a or fi.node.lineno > b) for a, b in ranges) and q not in names:
+                        names.append(q)
+        out[p['id']] = sorted(names)
+    return out
+
+
 def main(root='/repo'):
     st = subprocess.run(['git', '-C', root, 'status', '--porcelain'], stdout=subprocess.PIPE).stdout.decode()
     if st.strip():
@@ -36,7 +63,9 @@ def main(root='/repo'):
             funcs[q] = inventory_of_function(fi.node)
             funcs[q]['stores'] = sorted({n.attr for n in ast.walk(fi.node) if isinstance(n, ast.Attribute) and isinstance(n.ctx, ast.Store)})
             funcs[q]['effects'] = effects_of(fi.node, set(m.bindings.keys()), m)
+            funcs[q]['source'] = ast.unparse(fi.node)  # the confirmed function itself (DELTA compares statement by statement)
         inv['modules'][name] = {'names': consts, 'classes': classes, 'functions': funcs}
+    inv['anchored'] = anchored_functions(repo, root)
     out = os.path.join(os.path.dirname(os.path.abspath(__file__)), 'pblint', 'inventory.json')
     json.dump(inv, open(out, 'w'), indent=0)
     print('wrote %s: %d modules, %d functions' % (out, len(inv['modules']), sum(len(v['functions']) for v in inv['modules'].values())))
